@@ -547,3 +547,19 @@ CHECKS["C17"]["text"] += (
     " Two pool members pass the keyword arguments of downsample_grid in "
     "different orders with different bindings whose values, read in call "
     "order, coincide.")
+CHECKS["C09"]["text"] += (
+    " Every input carries index_online: in the joined file each source's "
+    "values are kept up to one offset and never run backwards between "
+    "sources.")
+CHECKS["C02"]["text"] += (
+    " A second .tsv export includes a scalar feature that holds NaN for "
+    "every second event (the rows are the selected events all the same); "
+    "file sources carry image_bg.")
+CHECKS["C01"]["text"] += (
+    " The index feature is written explicitly in all modes: the file must "
+    "enumerate 1..N whatever is handed in.")
+CHECKS["C20"]["text"] += (
+    " At the end of a quarter of the histories the summaries reported "
+    "through a basin-backed referrer and by a file joined from the file "
+    "and a copy are compared with their data; so are those of a hierarchy "
+    "child after a refresh.")
